@@ -246,7 +246,7 @@ impl<'a, F: IVP> SolOut for DefaultSolOut<'a, F> {
                                         s = fb / fa;
                                         let p = 2.0 * xm * s;
                                         let q = 1.0 - s;
-                                        let (p, q) = if q > 0.0 { (-p, q) } else { (p, -q) };
+                                        let (p, q) = if p > 0.0 { (p, -q) } else { (-p, q) };
                                         
                                         if 2.0 * p < (3.0 * xm * q - (tol1 * q).abs()).min((e * q).abs()) {
                                             e = d;
@@ -262,7 +262,7 @@ impl<'a, F: IVP> SolOut for DefaultSolOut<'a, F> {
                                         s = fb / fa;
                                         let p = s * (2.0 * xm * q_val * (q_val - r) - (b - a) * (r - 1.0));
                                         let q = (q_val - 1.0) * (r - 1.0) * (s - 1.0);
-                                        let (p, q) = if q > 0.0 { (-p, q) } else { (p, -q) };
+                                        let (p, q) = if p > 0.0 { (p, -q) } else { (-p, q) };
                                         
                                         if 2.0 * p < (3.0 * xm * q - (tol1 * q).abs()).min((e * q).abs()) {
                                             e = d;
